@@ -46,8 +46,8 @@ pub fn def() -> PropDef {
     panic_policy: PanicPolicy::Count,
     rule: "random UTF-8 inner texts and histories (<=12 steps quick / <=30 thorough) mixing replace/insert/*_with_enforce calls (equal keys, overlaps, nesting, all enforce values, positions beyond the end) with observer calls (source, rope, buffer, size, to_writer, map, hash, stream, Debug, clone); every observation is compared with the splice model of the replacement list at that moment; non-trivial = history has the pattern mutate, observe, mutate, observe with >=2 replacements; distinct = case fingerprint",
     cases: |t| match t {
-      Tier::Quick => 100_000,
-      Tier::Thorough => 2_000_000,
+      Tier::Quick => 300_000,
+      Tier::Thorough => 4_000_000,
     },
   }
 }
